@@ -107,6 +107,8 @@ where
   }
 
   fn drain_read_notifications(&self) {
+    #[cfg(rustdds_verif)]
+    crate::verif::sched::yp_opt("d0");
     self.simple_data_reader.drain_read_notifications();
   }
 
